@@ -936,7 +936,7 @@ def job(a):
         layout, ser = a["layout"], a["ser"]
         fresh = {}
         for oi, op in enumerate(H_OPS):
-            if op[0] in ("unset", "set"):
+            if op[0] in ("unset", "set", "rejoin"):
                 continue
             obs, bad = Hist(layout, ser).apply(0, op)
             fresh[oi] = _h_strip(obs)
@@ -984,7 +984,7 @@ H_FEED, H_FEED_X = "com.myapp.feed", "com.myapp.feed.x"              # prefix su
 # (kind, acting session, URI)
 H_OPS = [("pub", "A", H_T), ("pub", "B", H_T), ("call", "A", H_PB), ("call", "B", H_PA),
          ("call", "A", H_PA), ("call", "A", H_VAULT_GET), ("pub", "A", H_FEED_X),
-         ("err", "A", H_PB), ("unset", "A", None), ("set", "A", None)]
+         ("err", "A", H_PB), ("unset", "A", None), ("set", "A", None), ("rejoin", "A", None)]
 # layout -> (capabilities of A, capabilities of B, key scope)
 H_LAYOUTS = {
     "full/full": ("or", "or", "default"),
@@ -1109,6 +1109,21 @@ class Hist:
                 self.rings[x].set_key(sc, None if kind == "unset" else h_key(self.caps[x]))
                 (self.installed[x].discard if kind == "unset" else self.installed[x].add)(sc)
             return (kind,), bad
+        if kind == "rejoin":
+            # the application leaves, keeps the transport and joins again: the payload codec it
+            # installed on the session object is still in force in the next session
+            sx = self.sess[x]
+            sx.onLeave = lambda details: None
+            try:
+                sx.leave()
+                self.b.run()
+                sx.join("realm1")
+                self.b.run()
+            except Exception as e:
+                bad.append(("history-rejoin-raised", repr(e)[:200]))
+            if sx._session_id is None:
+                bad.append(("history-rejoin-failed", "no session after leave() + join() on the same transport"))
+            return (kind,), bad
         y = "B" if x == "A" else "A"
         args = [MARK + "-a%d" % i, i]
         kwargs = {"k": MARK + "-k%d" % i}
@@ -1226,7 +1241,7 @@ def run_history(layout, ser, seq, fresh):
         obs, bad = h.apply(i, H_OPS[oi])
         for c, d in bad:
             out.append((c, d, i))
-        if not bad and H_OPS[oi][0] not in ("unset", "set") and h.has_key == {"A": True, "B": True}:
+        if not bad and H_OPS[oi][0] not in ("unset", "set", "rejoin") and h.has_key == {"A": True, "B": True}:
             # differential: same operation, same keyring contents, fresh sessions
             want = fresh[oi]
             got = _h_strip(obs)
@@ -1347,7 +1362,7 @@ def replay(a):
     elif kind == "history":
         fresh = {}
         for oi, op in enumerate(H_OPS):
-            if op[0] not in ("unset", "set"):
+            if op[0] not in ("unset", "set", "rejoin"):
                 fresh[oi] = _h_strip(Hist(a["layout"], a["ser"]).apply(0, op)[0])
         h, out = run_history(a["layout"], a["ser"], a["seq"], fresh)
         return {"ops": [H_OPS[j] for j in a["seq"]], "escapes": repr(h.b.escapes)[:500],
